@@ -140,7 +140,12 @@ func checkInverse(b *sourcebundle.Bundle, root string, label any) error {
 		if !utf8.ValidString(dir) {
 			continue
 		}
-		for _, tail := range []string{"", "main.tf", "modules/a", "no/such/file.tf", "ünï/x", "with space/y z.tf"} {
+		for _, tail := range []string{"", "main.tf", "modules/a", "no/such/file.tf", "ünï/x", "with space/y z.tf", "caf\xe9.tf"} {
+			if !utf8.ValidString(tail) && ev.IsKnown("c18-non-utf8-file-name") {
+				// known finding: a file name that is not valid UTF-8 cannot be a sub-path
+				ev.Excluded("c18-non-utf8-file-name")
+				continue
+			}
 			want := filepath.Join(dir, tail)
 			relToCwd, _ := filepath.Rel(filepath.Dir(root), want)
 			spellings := []string{want, relToCwd, filepath.Join(dir, ".", tail) + "/.", dir + "/x/../" + tail, "./" + relToCwd}
